@@ -494,8 +494,7 @@ func checkC04(sc *Scenario, st *Stats) *Violation {
 	disc := RunArtela(base, ArtelaOpts{Debug: true})
 	for i := range disc.Obs {
 		if disc.Obs[i].Panic != "" {
-			st.Exclude("panic(C03)")
-			return nil
+			return violf("panic", "invocation %d: the VM panicked: %.1500s", i, disc.Obs[i].Panic)
 		}
 	}
 	dfl, err := BuildFrames(disc.Rec.Evs)
